@@ -50,6 +50,16 @@ def check(s, p, q):
                 except ValueError as e:
                     return has, ("C18 line %r rendered with line number and checksum as %r does not validate: %s"
                                  % (full, txt, e))
+                # independent reading of the rendered line, as the firmware does it: XOR of the bytes from the
+                # first non-blank character up to the last '*' must equal the number after it
+                star = txt.rfind("*")
+                body = txt[:star].lstrip(" ")
+                x = 0
+                for b in body.encode("utf-8"):
+                    x ^= b
+                if star < 0 or not txt[star + 1:].strip().isdigit() or int(txt[star + 1:]) != x:
+                    return has, ("C18 line %r rendered as %r: the checksum after '*' is not the XOR (%d) of the bytes "
+                                 "before it" % (full, txt, x))
         if "".join(out) != s:
             return has, "C18 concatenated fullText %r differs from the input %r" % ("".join(out), s)
         # the same instance, the same text once more: parsing is a function of the text
